@@ -227,6 +227,25 @@ def servePOST (s : Active) (body : Node) : Active × Except PErr Unit :=
   | .error e => (s, .error e)
   | .ok r => (r, .ok ())
 
+/-- `SetRequestModifier` / `SetResponseModifier`: one side is replaced under the lock (`nil` installs the
+noop); the other side and the stored configuration text are left alone. -/
+def setSide (s : Active) (k : Kind) (m : Option Mod) : Active :=
+  match k with
+  | .req => { s with req := m }
+  | .res => { s with res := m }
+
+/-- What happens to the endpoint between two messages: a configuration body is POSTed, or one side is
+installed through the Go API. -/
+inductive EOp
+  | post (body : Node)
+  | set (k : Kind) (m : Option Mod)
+
+def applyOp (s : Active) : EOp → Active
+  | .post b => (servePOST s b).1
+  | .set k m => setSide s k m
+
+def afterOps (s : Active) (ops : List EOp) : Active := ops.foldl applyOp s
+
 /-! ### The specification: depth-first evaluation of the tree -/
 
 /-- Does a node with this scope (and these capabilities) act on messages of kind `k`? -/
